@@ -229,3 +229,63 @@ func (eng *Engine) inventoryNondet() []*Obligation {
 	}
 	return []*Obligation{o}
 }
+
+// inventoryPredefined (C16): the predefined values of the interpreter (package exec, `globalValues`) are shared by every
+// execution of the process. A value of a type that can be changed in place would carry one run's changes into the next:
+// every predefined value must be of a frozen type (fields written only at allocation) or a type / method object (whose
+// only mutator, SetConstructor, is guarded by a clause of evalConstructorDeclareStmt).
+func (eng *Engine) inventoryPredefined() []*Obligation {
+	var bad []string
+	var keys []string
+	for k := range eng.funcs {
+		if strings.HasPrefix(k, "exec.init") {
+			keys = append(keys, k)
+		}
+	}
+	sort.Strings(keys)
+	n := 0
+	for _, k := range keys {
+		f := eng.funcs[k]
+		for _, b := range f.Blocks {
+			for _, ins := range b.Instrs {
+				mu, ok := ins.(*ssa.MapUpdate)
+				if !ok {
+					continue
+				}
+				mt, ok := mu.Map.Type().Underlying().(*types.Map)
+				if !ok || !isRegimeIface(mt.Elem()) {
+					continue
+				}
+				n++
+				mi, ok := mu.Value.(*ssa.MakeInterface)
+				if !ok {
+					bad = append(bad, fmt.Sprintf("%s: value of unknown dynamic type at %s", k, eng.fset.Position(mu.Pos())))
+					continue
+				}
+				pt, ok := mi.X.Type().Underlying().(*types.Pointer)
+				var nm *types.Named
+				if ok {
+					nm, _ = pt.Elem().(*types.Named)
+				}
+				if nm == nil || nm.Obj().Pkg() == nil {
+					bad = append(bad, fmt.Sprintf("%s: value of type %s at %s", k, mi.X.Type(), eng.fset.Position(mu.Pos())))
+					continue
+				}
+				tn := nm.Obj().Pkg().Name() + "." + nm.Obj().Name()
+				if eng.specs.Frozen[tn] || tn == "value.ClassModel" || tn == "value.Function" {
+					continue
+				}
+				bad = append(bad, fmt.Sprintf("a predefined value of the mutable type %s (its in-place methods change it for every later execution) at %s", tn, eng.fset.Position(mu.Pos())))
+			}
+		}
+	}
+	o := &Obligation{Name: "inventory/predefined-values:every predefined value is of a frozen type or a type/method object#1", Kind: "inventory", Fn: "inventory/predefined-values", Evaluated: true, Solver: "eval", Result: "unsat"}
+	if len(bad) > 0 || n == 0 {
+		o.Result = "sat"
+		if n == 0 {
+			bad = append(bad, "no predefined-value table found in exec.init (the inventory is vacuous)")
+		}
+		o.Model = strings.Join(bad, "\n")
+	}
+	return []*Obligation{o}
+}
